@@ -362,6 +362,10 @@ def r10_6(ctx):
 
 
 def run(ctx):
+    # shrink() gives up one slot per worker it retires (borrowed from C09): grow(n); shrink(n) must leave the bound where it was
+    from .c09 import r09_5 as _r09_5
+    from ..report import Only as _Only10
+    _r09_5(_Only10(ctx, ('shrink:target-semaphore-worker-per-step',), floor=1, doc='each retired worker lowers the target and shrinks the semaphore by one'))
     r10_6(ctx)
     r10_1(ctx)
     r10_2(ctx)
